@@ -117,7 +117,7 @@ def worlds(tier: str, stats: Dict[str, Any]) -> Iterator[Any]:
             if ids[0] > ids[-1] and R == 3:
                 continue
             plans = []
-            if b["full_product"] and R == 2:
+            if b["full_product"] and tset == [0, 1]:
                 for pa in itertools.permutations(range(len(vocs[0]))):
                     for pb in itertools.permutations(range(len(vocs[1]))):
                         plans.append([list(pa), list(pb)])
